@@ -224,10 +224,10 @@ def _verify_pwl_calibration(
     )
   if (
       len(keypoint_output_parameters.shape) == 3
-      and keypoint_output_parameters.shape[1] != units
+      and keypoint_output_parameters.shape[1] not in (1, units)
   ):
     raise ValueError(
-        "2nd dimension of keypoint_output_parameters does not match units, "
+        "2nd dimension of keypoint_output_parameters should be 1 or units, "
         f"units = {units} vs keypoint_output_parameters = "
         f"{keypoint_output_parameters.shape[1]}."
     )
